@@ -227,10 +227,53 @@ func laws(sel int, in, got []int64, law func(lsel int, lin []int64, sig string))
 	dumps := [][]int64{w.EncLawDump()}
 	// for each statement: index of the last step after which it was empty
 	emptySince := map[int64]int{1: 0, 2: 0, 3: 0}
+	prevStatus := map[int64]int64{} // status a victim had when its eviction was recorded (prevStatus of the operation)
+	preOK := map[int64]bool{}       // the recorded placement met the call sites' precondition (Pending, on no node)
+	anyDrop := false
 	for i, o := range ops {
+		before := dumps[len(dumps)-1]
+		var cops []int64 // law 103 input: the operations a Commit is about to decide
+		allRefused := false
+		switch o.Code {
+		case 1, 2:
+			st, nd := taskAt(before, o.A[1])
+			preOK[o.A[1]] = st == sched.SPending && nd == 0 && !onAnyNode(before, o.A[1])
+		case 3:
+			prevStatus[o.A[1]] = sched.StatusKey(w.Tasks[o.A[1]].Status)
+		case 4:
+			t := w.Tasks[o.A[1]]
+			if n, ok := w.Ssn.Nodes[t.NodeName]; ok {
+				if c, ok := n.Tasks[api.PodKey(t.Pod)]; ok {
+					prevStatus[o.A[1]] = sched.StatusKey(c.Status)
+				}
+			}
+		case 14, 15:
+			anyDrop = true
+		case 7:
+			vops := w.Stmts[o.A[0]].VerifOps()
+			cops = []int64{int64(len(vops))}
+			allRefused = len(vops) > 0
+			for _, vo := range vops {
+				id := sched.ParseID(string(vo.Task.UID))
+				refused := false
+				switch int64(vo.Kind) {
+				case 2:
+					refused = w.Cache.RefuseBind[id]
+				case 0:
+					refused = w.Cache.RefuseEvict[id]
+				}
+				if !refused {
+					allRefused = false
+				}
+				ps := prevStatus[id]
+				if ps == 0 {
+					ps = sched.SRunning
+				}
+				cops = append(cops, int64(vo.Kind), id, vh.B(refused), ps, vh.B(preOK[id]))
+			}
+		}
 		ob := execObserved(w, o)
 		after := w.EncLawDump()
-		before := dumps[len(dumps)-1]
 		dumps = append(dumps, after)
 		tid := int64(0)
 		switch o.Code {
@@ -250,7 +293,20 @@ func laws(sel int, in, got []int64, law func(lsel int, lin []int64, sig string))
 			sig = "C07-session-allocate-dispatch-refused-keeps-allocation"
 		}
 		law(101, lin, sig)
-		if o.Code == 6 {
+		if o.Code == 7 {
+			// theorem 6 on the dumps: refused binds / evictions are rolled back, accepted ones logged
+			lin := append([]int64{}, cops...)
+			lin = append(lin, before...)
+			lin = append(lin, after...)
+			lin = append(lin, int64(len(ob.newBind)))
+			for _, b := range ob.newBind {
+				lin = append(lin, b[0], b[1])
+			}
+			lin = append(lin, int64(len(ob.newEv)))
+			lin = append(lin, ob.newEv...)
+			law(103, lin, "")
+		}
+		if o.Code == 6 || (o.Code == 7 && allRefused && !anyDrop) {
 			sid := o.A[0]
 			b := emptySince[sid]
 			pure := b < i // at least one operation
@@ -272,7 +328,12 @@ func laws(sel int, in, got []int64, law func(lsel int, lin []int64, sig string))
 			}
 			if pure {
 				d := append(append([]int64{}, dumps[b]...), after...)
-				law(102, d, "")
+				if o.Code == 6 {
+					law(102, d, "")
+				} else {
+					// a Commit all of whose operations the cache refused is a Discard
+					law(104, d, "")
+				}
 			}
 		}
 		for sid := int64(1); sid <= 3; sid++ {
